@@ -307,3 +307,14 @@ Proof.
   split. { split; [reflexivity|]. intros _ r Hr. discriminate Hr. }
   repeat split; vm_compute; reflexivity.
 Qed.
+
+(* the window of C06_replay is tight: after 102 distinct eligible ids the table has just been
+   pruned to the newest 52, and the 53rd newest id is accepted again *)
+Example C06_replay_window_tight :
+  let line i := trigger_line 82 (1, 1, 6) (N.of_nat i * 100 + 10) 0 in
+  let '(d, acc) := hist_run false (new_det false false) (map (fun i => (false, line i)) (seq 1 102)) in
+  length acc = 102%nat /\
+  (exists tr, snd (fst (detect false d false (line 50%nat))) = Some tr /\ t_id tr = nth 52 acc [] /\
+              dedup_eligible false (t_id tr) = true) /\
+  snd (fst (detect false d false (line 51%nat))) = None.
+Proof. vm_compute. split; [reflexivity|]. split; [|reflexivity]. eexists. repeat split. Qed.
